@@ -67,8 +67,16 @@ def run_check(prop, repo):
     return r.returncode, rules, r.stdout, r.stderr
 
 
+ONLY = []
+
+
 def run_variant(spec_path, kind):
     spec = json.load(open(spec_path))
+    if ONLY:
+        spec["props"] = [p for p in spec["props"] if p in ONLY] or spec["props"]
+        if kind == "mutant":
+            exp = [e for e in spec["expect"] if any(e.startswith(p) for p in spec["props"])]
+            spec["expect"] = exp or spec["expect"]
     d = make_scratch()
     res = dict(file=os.path.relpath(spec_path, HERE), kind=kind, ok=False)
     try:
@@ -126,6 +134,7 @@ def main():
     ap.add_argument("--json", default="")
     a = ap.parse_args()
     only = [x for x in a.only.split(",") if x]
+    ONLY[:] = only
     files = []
     if a.mode == "one":
         kind = "refactor" if "/refactors/" in os.path.abspath(a.file) else "mutant"
